@@ -221,6 +221,10 @@ func insertAt(calls []Call, pos int, c Call) []Call {
 
 func randKind(r *lib.Rng) string {
 	switch x := r.Intn(100); {
+	case x < 3:
+		// a pass-through node with an input key / an output key / both (Graph only, oracle-only: normalize turns
+		// it into a plain pass-through node elsewhere)
+		return []string{"passk", "passo", "passko"}[r.Intn(3)]
 	case x < 25:
 		return "pass"
 	case x < 31:
@@ -388,7 +392,7 @@ func randGraph(r *lib.Rng, tier string) *Case {
 var graphInj = []string{"reserved", "dup-node", "need-state", "nodekey-opt", "end-as-start", "start-as-end",
 	"edge-unknown-start", "edge-unknown-end", "dup-edge", "branch-unknown-start", "branch-from-end", "branch-one",
 	"branch-unknown-end", "cycle", "no-start", "no-end", "uninferable", "maxsteps-dag", "early-compile", "self-loop", "branch-empty",
-	"multi-pred", "multi-pred", "multi-pred-cycle", "multi-pred-cycle"}
+	"multi-pred", "multi-pred", "multi-pred-cycle", "multi-pred-cycle", "keyed-pass", "keyed-pass"}
 
 func injectGraph(r *lib.Rng, c *Case, keys []string) {
 	kind := graphInj[r.Intn(len(graphInj))]
@@ -404,6 +408,36 @@ func injectGraph(r *lib.Rng, c *Case, keys []string) {
 	}
 	ins := func(call Call) { c.Calls = insertAt(c.Calls, injPos(r, c.Calls), call) }
 	switch kind {
+	case "keyed-pass":
+		// one or two pass-through nodes with input / output keys on a path from a node (or START) to END, the
+		// edges declared in a random order: whether the node's own type is known when a neighbour asks for its
+		// helper depends on that order (F-C20h: nil helper dereferenced in AddEdge / Compile)
+		kinds := []string{"passk", "passo", "passko", "pass"}
+		k1, k2 := "kp", "kq"
+		calls := []Call{{Op: "addnode", Key: k1, Kind: kinds[r.Intn(3)]}}
+		var links []Call
+		from := src()
+		if r.Chance(1, 2) {
+			calls = append(calls, Call{Op: "addnode", Key: k2, Kind: kinds[r.Intn(4)]})
+			links = []Call{{Op: "addedge", From: from, To: k1}, {Op: "addedge", From: k1, To: k2}, {Op: "addedge", From: k2, To: "end"}}
+		} else {
+			links = []Call{{Op: "addedge", From: from, To: k1}, {Op: "addedge", From: k1, To: []string{"end", any()}[r.Intn(2)]}}
+		}
+		if r.Chance(1, 4) {
+			links = links[:len(links)-1] // nothing behind the last one: its type may stay unknown
+		}
+		links = shuffle(r, links)
+		lo := 0
+		for i, k := range c.Calls[:firstCompile(c.Calls)] {
+			if k.Op == "addnode" {
+				lo = i + 1
+			}
+		}
+		p := r.Range(lo, firstCompile(c.Calls))
+		all := append(calls, links...)
+		for j := len(all) - 1; j >= 0; j-- {
+			c.Calls = insertAt(c.Calls, p, all[j])
+		}
 	case "multi-pred", "multi-pred-cycle":
 		// a node reached more than once from the same predecessor (an edge beside a branch, or two
 		// branches), off or on a cycle, compiled in all-predecessor mode: the counters of
